@@ -23,15 +23,17 @@ func (i *kvIndex) Get(key string) interface{} {
 }
 
 func (i *kvIndex) UpdateIndex(oplog ipfslog.Log, _ []ipfslog.Entry) error {
-	entries := oplog.Values().Slice()
-	size := len(entries)
-
 	handled := map[string]struct{}{}
 
 	verifhook.Point("index.beforeLock", nil)
 
 	i.muIndex.Lock()
 	defer i.muIndex.Unlock()
+
+	// read the log only once the index is locked: a concurrent update that read the log earlier but
+	// locked later would otherwise overwrite newer values with those of its older reading
+	entries := oplog.Values().Slice()
+	size := len(entries)
 
 	for idx := range entries {
 		item, err := operation.ParseOperation(entries[size-idx-1])
